@@ -252,6 +252,9 @@ fn construct(call: &str, args: &Value, rng: &mut Rng, grey: bool) -> Result<Img,
 fn run_behaviour(steps: &[Value], li: usize, sh: &mut Shards, seed: u64) -> u64 {
     let mut rng = Rng::new(seed, 0xbe4a_0000 + li as u64);
     let mut live: Option<Img> = None;
+    // the object a Clone step was called on stays alive next to a constructor-built copy of what it held at that moment:
+    // whatever happens to the clone afterwards (data_mut, conversions, drop), the original must still hold the same samples
+    let mut kept: Option<(Img, Img)> = None;
     let mut n = 0;
     for (k, step) in steps.iter().enumerate() {
         let call = step["call"].as_str().unwrap_or("").to_string();
@@ -261,6 +264,13 @@ fn run_behaviour(steps: &[Value], li: usize, sh: &mut Shards, seed: u64) -> u64 
         let _ = write!(s, "\"ev\":\"replay\",\"sid\":{li},\"k\":{k},\"case\":{step},\"obs\":{{");
         if let Some(i) = &live {
             let _ = write!(s, "\"pre\":{},", post_json(i));
+        }
+        if let Some((orig, snap)) = &kept {
+            let key = if matches!(orig, Img::Yuv8(_) | Img::Yuv16(_)) { "aliasi" } else { "aliasf" };
+            let d = maxdiff(orig, snap);
+            // a shape / kind mismatch is a difference too (kept numeric so that TLC compares like with like)
+            let d = if d.starts_with('"') { if key == "aliasi" { "-1".to_string() } else { "[9,1,0,0,0,0,0]".to_string() } } else { d };
+            let _ = write!(s, "\"{key}\":{d},");
         }
         let res: Result<Option<Img>, String> = match call.as_str() {
             "NewYuv" | "NewRgb" | "NewLin" | "NewXyb" | "NewHsl" => {
@@ -277,7 +287,13 @@ fn run_behaviour(steps: &[Value], li: usize, sh: &mut Shards, seed: u64) -> u64 
             },
             "Clone" => match live.take() {
                 None => Err("no-image".to_string()),
-                Some(i) => guarded(|| Ok(clone_img(&i))).map(Some),
+                Some(i) => {
+                    let c = guarded(|| Ok(clone_img(&i)));
+                    if let Ok(snap) = guarded(|| fresh_of(&i)) {
+                        kept = Some((i, snap));
+                    }
+                    c.map(Some)
+                }
             },
             "IntoData" => match live.take() {
                 None => Err("no-image".to_string()),
